@@ -86,6 +86,8 @@ def match_finding(prop, key, findings):
         cl = fd.get("clause", "*")
         if not (cl == "*" or cl == key.get("clause") or (cl.endswith("*") and key.get("clause", "").startswith(cl[:-1]))):
             continue
+        if fd.get("region", "*") not in ("*", key.get("region")):
+            continue
         guard = fd.get("guard", "True")
         try:
             ok = bool(eval(guard, {"__builtins__": {}}, dict(key.get("cfg", {}), abs=abs, min=min, max=max)))
